@@ -257,7 +257,71 @@ def task_resend(args):
     return n, out, classes
 
 
+def _poison(x):
+    """a value of the same kind that no encoder can take"""
+    if isinstance(x, bool):
+        return 'bogus'
+    if isinstance(x, int):
+        return 2 ** 32 + 7
+    if isinstance(x, str):
+        return 'bogus'
+    if isinstance(x, dict):
+        return {}
+    if isinstance(x, (list, tuple)):
+        return type(x)([_poison(x[-1])]) if len(x) else 'bogus'
+    return None
+
+
+def _outcome(fn, *a):
+    try:
+        r = fn(*a)
+        return ('ok', r if isinstance(r, (bytes, type(None))) else repr(r))
+    except Exception as e:      # noqa
+        return ('exc', type(e).__name__)
+
+
+def task_refused(args):
+    """what a refused request leaves behind: a message whose LAST element of one list cannot be encoded (the elements before it
+    can) is sent twice - both attempts must end the same way - and then a good message, which must come out as from a fresh process"""
+    import copy
+    from yabgp.message.update import Update
+    prop, which, tier = args
+    out = []
+    classes = set()
+    n = 0
+    cases = [c for c in resend_cases(which, tier) if upd.in_range(c[2], c[3])[0]]
+    # one good message per family to follow the refusal: the next case of the list (another value of the same kind) and the case itself
+    for ci, (fam, cv, msg0, asn4) in enumerate(cases):
+        follow = [cases[(ci + 1) % len(cases)], (fam, cv, msg0, asn4)]
+        base = [codec.roundtrip(copy.deepcopy(f[2]), f[3], upd) for f in follow]
+        lists = list(_lists_in(msg0))
+        for li, (path, lst) in enumerate(lists):
+            if len(lst) < 2:
+                continue
+            bad = copy.deepcopy(msg0)
+            blst = list(_lists_in(bad))[li][1]
+            blst[-1] = _poison(blst[-1])
+            if blst[-1] is None:
+                continue
+            o1 = _outcome(Update.construct, copy.deepcopy(bad), asn4)
+            o2 = _outcome(Update.construct, copy.deepcopy(bad), asn4)
+            n += 1
+            key = '%s|%s|after a refused request (last element of %s unencodable)|asn4=%s' % (prop, fam, '/'.join(str(x) for x in path if not isinstance(x, int)) or 'list', asn4)
+            d = {'family': fam, 'class_vector': list(cv), 'msg': msg0, 'asn4': asn4, 'bad_message': repr(bad)[:600], 'list_index': li}
+            if o1 != o2:
+                out.append((key + '|the same request ends differently the second time', dict(d, first=repr(o1)[:300], second=repr(o2)[:300])))
+            for f, b in zip(follow, base):
+                got = codec.roundtrip(copy.deepcopy(f[2]), f[3], upd)
+                classes.add((fam, 'after-refusal', o1[0], got[0]))
+                if repr(got) != repr(b):
+                    out.append((key + '|a good message sent afterwards comes out differently', dict(d, good_message=f[2], fresh=repr(b)[:500], after_refusal=repr(got)[:500])))
+                    break
+    return n, out, classes
+
+
 def _dispatch(t):
+    if t[0] == 'refused':
+        return task_refused(t[1:])
     if t[0] == 'resend':
         return task_resend(t[1:])
     if t[0] == 'threads':
@@ -286,6 +350,8 @@ def run_pool(prop, which, tier, seed, rule, assumptions):
     tasks += [('threads', a) for a in concurrent.tasks(prop, tier)]
     # the caller edits a list of the message it sent in place and sends it again (the agent must not have kept anything of the first)
     tasks.append(('resend', prop, which, tier))
+    # a request refused half-way (its last route / segment / element cannot be encoded), the same again, then a good one
+    tasks.append(('refused', prop, which, tier))
     res = explore.pmap(_dispatch, tasks, chunk=1)
     explore.close_pool()
     total = 0
@@ -295,7 +361,11 @@ def run_pool(prop, which, tier, seed, rule, assumptions):
         classes |= cl
         for k, det in out:
             if t[0] == 'threads':
-                col.add(k, {x: det[x] for x in det if x in ('specs', 'start', 'cuts', 'label', 'bound')}, det, task=t)
+                col.add(k, {x: det[x] for x in det if x in ('specs', 'start', 'cuts', 'label', 'bound', 'cold')}, det, task=t)
+                continue
+            if t[0] == 'refused':
+                col.add(k, {'msg': det['msg'], 'asn4': det['asn4'], 'family': det['family'], 'list_index': det['list_index'],
+                            'case': report.pack((det['msg'], det['asn4']))}, det, task=t)
                 continue
             if t[0] == 'resend':
                 col.add(k, {'msg': det['msg'], 'asn4': det['asn4'], 'family': det['family'], 'edit': det['edit'], 'list_index': det['list_index'],
@@ -346,7 +416,7 @@ def replay(path, prop=PROP):
             return [fix(v) for v in x]
         return x
     msg = report.unpack(w['case'])[0] if 'case' in w else fix(w['msg'])      # the pickled case keeps tuples as tuples
-    if '|session-path|' in d['key'] or '|resend after in-place edit' in d['key']:
+    if '|session-path|' in d['key'] or '|resend after in-place edit' in d['key'] or '|after a refused request' in d['key']:
         return report.replay_in_task(d, _dispatch)
     r1, r2 = report.twice(codec.roundtrip, msg, w['asn4'], upd)
     if repr(r1) != repr(r2):
